@@ -270,3 +270,27 @@ Proof.
   pose proof (proj1 (forallb_forall _ _) H u Hin) as Hu. unfold row_ok in Hu.
   apply andb_true_iff in Hu as [_ Hf]. destruct (u_falsy_bad u); [reflexivity | discriminate].
 Qed.
+
+(* ------------------------------------------------------------------ double fault: call fails with e1, probes with e2 *)
+Lemma probe_tables_ok : forallb prblock_ok probe_blocks && prblocks_complete ladder_blocks probe_blocks = true.
+Proof. vm_compute. reflexivity. Qed.
+
+Theorem probe_contract : forall b, In b probe_blocks ->
+  Forall2 (fun q g => match q with (e1, e2, z) =>
+             (known_probe_raw (l_plat b) (l_meth b) (l_site b) e1 e2 z = false ->
+              gout_in (probe_allowed (l_plat b) (l_meth b) (l_site b) e1 e2 z) g = true)
+             /\ gout_ok (Some (probe_outcome (l_plat b) (l_meth b) (l_site b) e1 e2 z)) g = true end)
+          (probe_conds (l_plat b)) (l_outs b).
+Proof.
+  intros b Hin. pose proof probe_tables_ok as H. apply andb_true_iff in H as [H _].
+  pose proof (proj1 (forallb_forall _ _) H b Hin) as Hb. unfold prblock_ok in Hb. apply forallb2_Forall2 in Hb.
+  eapply Forall2_imp; [|exact Hb]. cbv beta. intros [[e1 e2] z] g Hq.
+  apply andb_true_iff in Hq as [Ha Hm]. split; [|exact Hm]. intro Hk. rewrite Hk in Ha. exact Ha.
+Qed.
+
+Theorem probe_blocks_complete : prblocks_complete ladder_blocks probe_blocks = true.
+Proof. pose proof probe_tables_ok as H. apply andb_true_iff in H as [_ H]. exact H. Qed.
+
+Example probe_tables_nontrivial :
+  (10000 <=? Z.of_nat (List.length (filter fired (flat_map l_outs probe_blocks)))) = true.
+Proof. vm_compute. reflexivity. Qed.
